@@ -40,8 +40,10 @@ RECURSIVE IsAnc(_, _)
 IsAnc(a, c) == IF c = Absent THEN FALSE ELSE IF a = c THEN TRUE ELSE IsAnc(a, parent[c])
 
 \* ref strings in the order pullBranches walks them (sort.Slice on Ref.String()).  TLC has no order on strings, so
-\* the order of the refs this model may use is listed explicitly (Branches \subseteq {b1, b2}, Tags \subseteq {t1, t2}).
-RefOrder == <<"b:b1", "b:b2", "b:main", "t:t1", "t:t2">>
+\* the order of the refs this model may use is listed explicitly (Branches \subseteq {b1, b2, z1}, Tags \subseteq {t1, t2});
+\* b1/b2 sort before main, z1 after it: refsToDelete is a sorted two-pointer merge whose TAIL handles local refs that sort after
+\* every remaining remote ref.
+RefOrder == <<"b:b1", "b:b2", "b:main", "b:z1", "t:t1", "t:t2">>
 PosRef(r) == CHOOSE i \in 1..Len(RefOrder) : RefOrder[i] = r
 RECURSIVE SortRefs(_)
 SortRefs(S) == IF S = {} THEN <<>>
@@ -94,8 +96,14 @@ Join(s) == IF Len(s) = 1 THEN s[1] ELSE s[1] \o "," \o s[2]
 
 \* projection after a replica statement: the statement fails on a pull error unless errors are skipped; when it
 \* succeeds the session sees rep'
+\* the pull removes a ref that sorts after every ref the remote still has (the tail of the merge in refsToDelete)
+TailDelete(pr) == mode = "all" /\ pr[2] /\ \E r \in Refs : /\ rep[r] # Absent /\ remote[r] = Absent
+                                                       /\ \A q \in Refs : remote[q] # Absent => PosRef(q) < PosRef(r)
+\* ... or one that sorts before a surviving remote ref (decided inside the merge loop)
+HeadDelete(pr) == mode = "all" /\ pr[2] /\ \E r \in Refs : /\ rep[r] # Absent /\ remote[r] = Absent
+                                                       /\ \E q \in Refs : remote[q] # Absent /\ PosRef(q) > PosRef(r)
 RProj(pr) ==
-  IF pr[2] THEN [res |-> "ok", warned |-> FALSE, rep |-> Heads(pr[1])]
+  IF pr[2] THEN [res |-> "ok", warned |-> FALSE, rep |-> Heads(pr[1]), tail |-> TailDelete(pr), head |-> HeadDelete(pr)]
   ELSE IF skip THEN [res |-> "ok", warned |-> TRUE, rep |-> Heads(pr[1])]
   ELSE [res |-> "err", warned |-> FALSE]
 
@@ -131,8 +139,17 @@ view == <<pvars, rvars>>
 \* ------------------------------------------------------------------ properties
 ReplicaHeadsWereRemoteHeads == \A r \in Refs : rep[r] = Absent \/ rep[r] \in remoteHad[r]
 
+\* a ref deleted on the remote is gone from the replica after the next successful all-heads pull
+DeletedOnRemoteGoneAfterPull == (mode = "all" /\ PullResult[2]) => \A r \in Refs : remote[r] = Absent => PullResult[1][r] = Absent
+\* and after such a pull with force the replica's branches are exactly the remote's
+FullPullEqualsRemote == (mode = "all" /\ force /\ PullResult[2]) => \A r \in Refs : IsBranchRef(r) => PullResult[1][r] = remote[r]
+
 ASSUME \A r \in Refs : \E i \in 1..Len(RefOrder) : RefOrder[i] = r
 Emit == Len(hist) < D \/ PrintT(ToJson(hist))
 \* generator constraint: only behaviours on which the code and the repaired push hook agree (never the stale destination)
 EmitAgreed == ~staleDestUsed /\ (Len(hist) < D \/ PrintT(ToJson(hist)))
+\* generator constraint of the asynchronous push mode (dolt_async_replication = 1): the driver waits at a flush barrier after
+\* every statement, which needs a valid, reachable remote; with the barrier the asynchronous pusher must give exactly the
+\* remote refs the synchronous hook gives
+EmitAsync == cfg = "good" /\ up /\ EmitAgreed
 =============================================================================
